@@ -194,6 +194,13 @@ func injectConcretise(segs []injectSeg, id, variant int, salt string) *injectCon
 				vi++
 			}
 		}
+		if r.Intn(12) == 0 {
+			// long rule values (a generated in=(...) list): a field text of several hundred bytes, and one that crosses
+			// 512 / 1024 bytes when the annotation is merged in
+			for k := range m {
+				m[k] += ",in=(" + strings.Repeat("opt_value/", 20+r.Intn(60)) + "x)"
+			}
+		}
 		c.Vals[i] = m
 	}
 	var b strings.Builder
@@ -212,8 +219,12 @@ func injectConcretise(segs []injectSeg, id, variant int, salt string) *injectCon
 	}
 	if r.Intn(16) == 0 {
 		// one very long line ahead of the first annotation (generated files carry raw descriptors of this size):
-		// more than a line-oriented reader's default buffer
-		b.WriteString("var rawDesc = \"" + strings.Repeat("\\x0a\\x12proto", 7000) + "\"\n\n")
+		// more than a line-oriented reader's default buffer; one file in 512 is larger than 4 MiB altogether
+		n := 7000
+		if r.Intn(32) == 0 {
+			n = 380000
+		}
+		b.WriteString("var rawDesc = \"" + strings.Repeat("\\x0a\\x12proto", n) + "\"\n\n")
 	}
 	if r.Intn(3) == 0 {
 		b.WriteString("const (\n\t_ = protoimpl.EnforceVersion(20 - protoimpl.MinVersion)\n\traw = `json:\"in_const\" // @tag json:\"no\"`\n)\n\n")
@@ -1169,6 +1180,19 @@ func injectDirsCmd(args []string) error {
 			for i := range v.Ents {
 				p := injectEntPath(dir, &v.Ents[i])
 				os.MkdirAll(filepath.Dir(p), 0o755)
+				if k := v.Ents[i].Kind; v.ID%3 == 1 && i == 0 && k != "subdir" && k != "subdirgo" {
+					// the first entry of every third directory is reached through a symbolic link (the file itself
+					// lies in a sub-directory, which -d does not enter): it is read, judged and written through the link
+					real := filepath.Join(dir, "zz_lnk", filepath.Base(p))
+					os.MkdirAll(filepath.Dir(real), 0o755)
+					if err := os.WriteFile(real, []byte(v.Ents[i].Conc.Src), 0o644); err != nil {
+						panic(err)
+					}
+					if err := os.Symlink(filepath.Join("zz_lnk", filepath.Base(p)), p); err != nil {
+						panic(err)
+					}
+					continue
+				}
 				if err := os.WriteFile(p, []byte(v.Ents[i].Conc.Src), 0o644); err != nil {
 					panic(err)
 				}
